@@ -344,6 +344,32 @@ fn admin_case() -> impl Strategy<Value = AdminCase> {
 		.prop_map(|(sc, admin, col, new_col, capture_at)| AdminCase { sc, admin, col, new_col, capture_at })
 }
 
+/// The same with 11-18 columns: the generated columns (which carry the data) are moved behind
+/// 7-13 plain hash columns, so that column ids with two digits - and ids whose decimal and
+/// hexadecimal spellings differ - are administrated and must be left alone.
+fn admin_wide_case() -> impl Strategy<Value = AdminCase> {
+	(admin_case(), 7u8..=13).prop_map(|(mut c, pad)| {
+		let mut cols: Vec<ColCfg> = (0..pad).map(|_| ColCfg::hash()).collect();
+		cols.extend(c.sc.cfg.cols.drain(..));
+		c.sc.cfg.cols = cols;
+		for op in c.sc.ops.iter_mut() {
+			if let Op::Commit(items) = op {
+				for (i, it) in items.iter_mut().enumerate() {
+					// most items keep their (shifted) column; a few go to the padding columns
+					if i % 5 == 4 {
+						if let Change::Set(..) | Change::Del(..) = it.ch {
+							it.col = it.col % pad;
+							continue
+						}
+					}
+					it.col += pad;
+				}
+			}
+		}
+		c
+	})
+}
+
 fn run(ctx: &Ctx) {
 	// (a) exhaustive single-column round trip
 	for bits in 0u16..384 {
@@ -370,7 +396,11 @@ fn run(ctx: &Ctx) {
 		return
 	}
 	let n = scaled(ctx, 1_000, 30_000);
-	ctx.run_prop_shrink("admin", n, 300, admin_case(), run_admin);
+	if !ctx.run_prop_shrink("admin", n, 300, admin_case(), run_admin) {
+		return
+	}
+	let n = scaled(ctx, 400, 10_000);
+	ctx.run_prop_shrink("admin-wide", n, 300, admin_wide_case(), run_admin);
 }
 
 fn replay(ctx: &Ctx, path: &Path) -> Result<(), Failure> {
